@@ -116,6 +116,15 @@ def gen_tree(rng):
             add_file(d, name)
         if rng.random() < 0.4:
             add_file(d, rng.choice(NONLOG_NAMES))
+        if rng.random() < 0.15:
+            # an archive beneath the directory: walking reaches it like naming it; its members (whatever their names,
+            # a named archive's members are all attempted) must print the same either way
+            members = []
+            for mn in rng.sample(("old/app.log", "deploy.sh", "report.html", "notes", "m.txt", "x.py"), rng.randint(1, 3)):
+                letter = bytes([65 + fid[0] % 26]) + bytes([97 + (fid[0] // 26) % 26])
+                fid[0] += 1
+                members.append((mn, make_log(rng, letter, rng.randint(1, 3), instants), 1600000000))
+            t.files[d + "/" + rng.choice(("bundle.tar", "a.tar"))] = world.to_tar(members, rng.choice(("ustar", "gnu", "pax")))
         if depth < 3:
             for dn in rng.sample(DIR_NAMES, rng.randint(0, 2)):
                 fill(d + "/" + dn, depth + 1)
